@@ -67,7 +67,7 @@ def gen_W(rng, name, nmax=12, settings=None):
     if mode < 0.1: kinds = ["free"] * n
     elif mode < 0.2: kinds = ["lower"] * n
     elif mode < 0.3: kinds = ["upper"] * n
-    pb = G.gen_problem(rng, n=n, p=p, m=m, convex=True, wellposed=True, bound_kinds=kinds, sparse_prob=rng.choice([0.2, 0.6]))
+    pb = G.gen_problem(rng, n=n, p=p, m=m, convex=True, wellposed=True, bound_kinds=kinds, sparse_prob=rng.choice([0.2, 0.6]), special=1.0, strict_convex=True)
     st = list(settings or [])
     lbp = any(k in ("lower", "both") for k in kinds) or rng.random() < 0.5
     ubp = any(k in ("upper", "both") for k in kinds) or rng.random() < 0.5
